@@ -382,6 +382,23 @@ class Program:
         return ti
 
     # ------------------------------------------------------------ calls
+    def transparent_adt(self, path):
+        """a crate-local struct with exactly one field of integer type (`struct BlockNum(u16)`): represented like the integer
+        itself, so that wrapping a counter in a newtype changes nothing for the interpreter or the rules"""
+        cache = getattr(self, "_transparent", None)
+        if cache is None:
+            cache = self._transparent = {}
+        r = cache.get(path)
+        if r is None:
+            a = self.adts.get(path)
+            r = False
+            if a is not None and a.get("kind") == "struct" and len(a["variants"]) == 1 and len(a["variants"][0]["fields"]) == 1:
+                ft = self.types[a["variants"][0]["fields"][0]["ty"]]
+                crate = next(iter(self.bodies)).split("::", 1)[0] if self.bodies else ""
+                r = ft["k"] == "int" and path.startswith(crate + "::")
+            cache[path] = r
+        return r
+
     def callee_targets(self, fn, binding=None):
         """Resolve a call's `fn` record to a list of local body paths (possibly empty) and a
         canonical callee name for modelling. binding: {param name -> type idx} of the inlining context.
